@@ -1,0 +1,87 @@
+//! Verification hook (cargo feature `zvt_verif`, off by default).
+//!
+//! Lets a deterministic simulator stand in for the TCP socket the
+//! reconnecting stream opens. With the feature off this module is not
+//! compiled and nothing changes.
+use std::cell::RefCell;
+use std::future::Future;
+use std::io;
+use std::net::SocketAddrV4;
+use std::pin::Pin;
+use std::task::{Context, Poll};
+use ::tokio::io::{AsyncRead, AsyncWrite, ReadBuf};
+
+/// What a simulated connection must implement.
+pub trait VerifIo: AsyncRead + AsyncWrite + Unpin + Send {}
+impl<T: AsyncRead + AsyncWrite + Unpin + Send> VerifIo for T {}
+
+pub type ConnectFuture = Pin<Box<dyn Future<Output = io::Result<Box<dyn VerifIo>>> + Send>>;
+pub type Connector = Box<dyn FnMut(SocketAddrV4) -> ConnectFuture>;
+
+thread_local! {
+    static CONNECTOR: RefCell<Option<Connector>> = RefCell::new(None);
+}
+
+/// Installs the connector used by every `connect` on this thread.
+pub fn install(connector: Connector) {
+    CONNECTOR.with(|c| *c.borrow_mut() = Some(connector));
+}
+
+/// Removes the connector of this thread.
+pub fn uninstall() {
+    CONNECTOR.with(|c| *c.borrow_mut() = None);
+}
+
+/// Stand-in for [::tokio::net::TcpStream].
+pub struct VerifTcpStream(Box<dyn VerifIo>);
+
+impl VerifTcpStream {
+    pub async fn connect(addr: SocketAddrV4) -> io::Result<Self> {
+        let fut = CONNECTOR.with(|c| match c.borrow_mut().as_mut() {
+            Some(connector) => Ok(connector(addr)),
+            None => Err(io::Error::new(
+                io::ErrorKind::NotConnected,
+                "zvt_verif: no connector installed",
+            )),
+        })?;
+        Ok(Self(fut.await?))
+    }
+}
+
+impl AsyncRead for VerifTcpStream {
+    fn poll_read(
+        mut self: Pin<&mut Self>,
+        cx: &mut Context<'_>,
+        buf: &mut ReadBuf<'_>,
+    ) -> Poll<io::Result<()>> {
+        Pin::new(&mut *self.0).poll_read(cx, buf)
+    }
+}
+
+impl AsyncWrite for VerifTcpStream {
+    fn poll_write(
+        mut self: Pin<&mut Self>,
+        cx: &mut Context<'_>,
+        buf: &[u8],
+    ) -> Poll<io::Result<usize>> {
+        Pin::new(&mut *self.0).poll_write(cx, buf)
+    }
+
+    fn poll_flush(mut self: Pin<&mut Self>, cx: &mut Context<'_>) -> Poll<io::Result<()>> {
+        Pin::new(&mut *self.0).poll_flush(cx)
+    }
+
+    fn poll_shutdown(mut self: Pin<&mut Self>, cx: &mut Context<'_>) -> Poll<io::Result<()>> {
+        Pin::new(&mut *self.0).poll_shutdown(cx)
+    }
+}
+
+/// Shadows the `tokio` crate name inside `stream.rs`: everything is the real
+/// tokio except `net::TcpStream`.
+pub mod tokio {
+    pub use ::tokio::*;
+    pub mod net {
+        pub use super::super::VerifTcpStream as TcpStream;
+        pub use ::tokio::net::ToSocketAddrs;
+    }
+}
